@@ -41,10 +41,7 @@ func verifTableSeq(k int) gpbft.PowerEntries {
 func VerifC09_PutGetModel() {
 	ctx := context.Background()
 	ds := newVerifDS()
-	first := uint64(sym.Uint8("first"))
-	sym.Assume(first <= 5)
-	freq := uint64(sym.Uint8("freq"))
-	sym.Assume(sym.And(freq >= 1, freq <= 3))
+	first, freq := verifParams(5)
 	nops := 3 + sym.Tier()
 
 	cs, err := CreateStore(ctx, ds, first, verifTableSeq(0))
@@ -52,7 +49,7 @@ func VerifC09_PutGetModel() {
 	if err != nil {
 		return
 	}
-	cs.powerTableFrequency = freq
+	verifSetFreq(cs, freq)
 	ref := &verifRef{first: first, tables: []gpbft.PowerEntries{verifTableSeq(0)}}
 	verifCompare(ctx, cs, ref, "after-create")
 
@@ -115,13 +112,13 @@ func VerifC09_PutGetModel() {
 	cs2, err := OpenStore(ctx, ds)
 	sym.Assert(err == nil, "reopen-succeeds")
 	if err == nil {
-		cs2.powerTableFrequency = freq
+		verifSetFreq(cs2, freq)
 		verifCompare(ctx, cs2, ref, "after-reopen")
 	}
 	cs3, err := OpenOrCreateStore(ctx, ds, first, verifTableSeq(0))
 	sym.Assert(err == nil, "open-or-create-succeeds")
 	if err == nil {
-		cs3.powerTableFrequency = freq
+		verifSetFreq(cs3, freq)
 		verifCompare(ctx, cs3, ref, "after-open-or-create")
 	}
 	_, err = OpenOrCreateStore(ctx, ds, first+1, verifTableSeq(0))
